@@ -419,7 +419,7 @@ func TestValidRandom(t *testing.T) {
 		Name: "valid-random",
 		Rule: "message type from the corpus (core test messages with proto2 groups and editions DELIMITED fields, types with groups within two levels, types with message fields, any type; generated, typed-nil or dynamicpb); 0..4 paths from a walk over the descriptors to depth 4, steering through message fields (sometimes through repeated/map fields), spelling each segment correctly or by a near miss (field name of a group, JSON name, text name, case changes, type name, oneof name, full name, number, truncated), sometimes decorated with empty segments; New, IsValid and Append (onto a non-empty mask) vs the descriptor-walk model, per path and per list. non-trivial = a path of >= 2 segments that meets a group, delimited, repeated, map or oneof-member field",
 		Draw: drawValid, Check: checkValid, NonTrivial: validNonTrivial, Classes: validClasses,
-		Quick: 30000, Thorough: 500000,
+		Quick: 30000, Thorough: 300000,
 	})
 }
 
